@@ -31,7 +31,8 @@ from ..report import guarded, run_parallel
 NODES = ['A', 'B', 'C']
 LINKS = ['L1', 'L2']
 PATS = ['P', 'Q']
-CURVES = {'H': ('HEAD', [(0.05, 30.0)]), 'V': ('VOLUME', [(0.0, 0.0), (10.0, 500.0)]), 'G': ('HEADLOSS', [(0.0, 0.0), (0.1, 5.0)])}
+CURVES = {'H': ('HEAD', [(0.05, 30.0)]), 'V': ('VOLUME', [(0.0, 0.0), (10.0, 500.0)]), 'G': ('HEADLOSS', [(0.0, 0.0), (0.1, 5.0)]),
+          'E': ('HEADLOSS', [])}       # a placeholder curve without points yet
 
 
 def start_model(kind):
@@ -69,18 +70,12 @@ OPS = [
     ('set_start', ('link', 'node')), ('set_end', ('link', 'node')), ('set_speed_pattern', ('link', 'patopt')), ('set_pump_curve', ('link', 'curve')),
     ('set_vol_curve', ('node', 'curveopt')),
 ]
-POOLS = {'node': NODES, 'link': LINKS, 'pat': PATS, 'patopt': [None, 'P'], 'curve': ['H', 'V', 'G'], 'curveopt': [None, 'V'], 'vtype': ['PRV', 'TCV', 'PBV', 'GPV']}
+POOLS = {'node': NODES, 'link': LINKS, 'pat': PATS, 'patopt': [None, 'P'], 'curve': ['H', 'V', 'G'], 'curveopt': [None, 'V'], 'vtype': ['PRV', 'TCV', 'PBV', 'GPV', 'GPV-placeholder']}
 EXPECTED = (KeyError, ValueError, RuntimeError, AssertionError, AttributeError, TypeError)
 
 
 def apply_op(wn, op, args):
     """returns None if done, or the exception instance if the API rejected the operation"""
-    if op in ('add_pipe', 'add_head_pump', 'add_power_pump', 'add_valve') and args[1] == args[2]:
-        return None        # a link from a node to itself is not a valid element (EPANET error 222): outside the histories considered
-    if op in ('set_start', 'set_end') and args[0] in wn.link_name_list:
-        l = wn.get_link(args[0])
-        if (op == 'set_start' and l.end_node_name == args[1]) or (op == 'set_end' and l.start_node_name == args[1]):
-            return None
     if op == 'add_source' and 'S' in wn.source_name_list:
         return None        # re-using a source name is outside the histories considered (the statement is about nodes, links and their users)
     try:
@@ -97,7 +92,10 @@ def apply_op(wn, op, args):
         elif op == 'add_power_pump':
             wn.add_pump(args[0], args[1], args[2], 'POWER', 100.0, pattern=None)
         elif op == 'add_valve':
-            wn.add_valve(args[0], args[1], args[2], 0.3, args[3], 0.0, 'G' if args[3] == 'GPV' else 10.0)
+            if args[3].startswith('GPV'):
+                wn.add_valve(args[0], args[1], args[2], 0.3, 'GPV', 0.0, 'G' if args[3] == 'GPV' else 'E')
+            else:
+                wn.add_valve(args[0], args[1], args[2], 0.3, args[3], 0.0, 10.0)
         elif op == 'add_pattern':
             wn.add_pattern(args[0], [1.0, 0.5])
         elif op == 'add_curve':
@@ -402,7 +400,7 @@ def run(rep, only=None):
     rep.encode(NM.NodeRegistry.__setitem__, NM.NodeRegistry.__delitem__, NM.LinkRegistry.__setitem__, NM.LinkRegistry.__delitem__, NM.PatternRegistry.__delitem__ if hasattr(NM.PatternRegistry, '__delitem__') else NB.Registry.__delitem__,
                NB.Registry.add_usage, NB.Registry.remove_usage, NM.WaterNetworkModel.remove_node, NM.WaterNetworkModel.remove_link, NM.WaterNetworkModel.get_links_for_node,
                NB.Link.start_node.fset, NB.Link.end_node.fset, EL.Pump.speed_pattern_name.fset, EL.HeadPump.pump_curve_name.fset, EL.Tank.vol_curve_name.fset)
-    rep.bound('name pools: 3 nodes, 2 links, 2 patterns, 3 curves; 22 operations; start models: empty, base (reservoir + junction with two demands on two patterns + curves), rich (+ tank with volume curve, head pump with speed pattern, pipe, source, second demand with its own pattern, time control, rule with OR / AND condition reading the tank and the pump)')
+    rep.bound('name pools: 3 nodes, 2 links, 2 patterns, 3 curves + an empty placeholder curve; links may be re-pointed onto their own other end and added as self-loops; 22 operations; start models: empty, base (reservoir + junction with two demands on two patterns + curves), rich (+ tank with volume curve, head pump with speed pattern, pipe, source, second demand with its own pattern, time control, rule with OR / AND condition reading the tank and the pump)')
     rep.bound('quick: all histories of length 1 over all operations and of length 2 per operation family (node / link / registry); thorough: length 2 over all operations from both models, length 3 over the node and the registry operation families from the rich model')
     tasks = []
     for start in ('empty', 'base', 'rich'):
